@@ -430,6 +430,51 @@ def leg_io(ns, res, spec):
         if ref.io_error != (err == 'io') or (err not in (None, 'io')):
             res.violation('py:defective-rfc-quoting-class', '[py] quoted_rfc text %r: error %r, reference io_error=%s' % (text, err, ref.io_error), {'leg': 'io', 'text': text})
     res.sample({'leg': 'io', 'bad_byte_positions': len(good) + 1, 'bad_sequences': [b.hex() for b in bads]})
+    leg_io_js(res, good, bads)
+
+
+def leg_io_js(res, good, bads):
+    """The JS port: undecodable input (bulk and streamed) and defective quoted_rfc quoting fail as IO-handling errors - by the class of the exception
+    and by the type its public classifier (exception_to_error_info, what the command line prints) gives it; a failing record and a static mistake likewise."""
+    from ..js import bridge
+    node = bridge.Node.start()
+    if node is None:
+        res.notes.append('js io leg: unavailable (no node)')
+        return
+    try:
+        reqs, meta = [], []
+        base = {'encoding': 'utf-8', 'delim': ',', 'policy': 'quoted_rfc', 'has_header': False, 'comment_prefix': None, 'query': 'select *', 'out_delim': ',', 'out_policy': 'quoted'}
+        for p in range(0, len(good) + 1):
+            for bad in bads:
+                data = good[:p] + bad + good[p:]
+                try:
+                    data.decode('utf-8')
+                    continue
+                except UnicodeDecodeError:
+                    pass
+                for chunks in (None, [len(data)], [c for c in (p, len(data) - p) if c > 0], [1] * len(data)):
+                    reqs.append(dict(base, bytes_hex=data.hex(), chunks=chunks))
+                    meta.append(('undecodable', 'IO handling', 'RbqlIOHandlingError', 'invalid byte %r at offset %d, chunks %r' % (bad, p, chunks)))
+        for text in ['a,"b\n', 'a,b"c\nd,e\n', 'x\n"a"b,c\n', 'a"b\n', '"ab\nc\n']:
+            if refcsv.read_text(text, ',', 'quoted_rfc').io_error:
+                for chunks in (None, [len(text)]):
+                    reqs.append(dict(base, bytes_hex=text.encode().hex(), chunks=chunks))
+                    meta.append(('defective-rfc', 'IO handling', 'RbqlIOHandlingError', 'quoted_rfc text %r, chunks %r' % (text, chunks)))
+        for q, kind, cls in (('select a1.length, a2.length', 'query execution', 'RbqlRuntimeError'), ('select a1 where a1 = "x"', 'query parsing', 'RbqlParsingError'), ('select a1 limit x', 'query parsing', 'RbqlParsingError')):
+            for chunks in (None, [4, 2]):
+                reqs.append(dict(base, policy='quoted', query=q, bytes_hex=b'a,b\nc\n'.hex(), chunks=chunks))
+                meta.append(('classifier', kind, cls, 'query %r over a CSV file whose second record is short' % q))
+        outs = node.call({'op': 'query_csv_text_batch', 'cases': reqs})['results']
+        for (name, kind, cls, what), rq, o in zip(meta, reqs, outs):
+            res.evaluations += 1
+            res.count('js_io_runs')
+            res.distinct_disjoint += 1
+            e = o['error'] or {}
+            if e.get('cls') != cls or e.get('kind') != kind:
+                res.violation('js:error-class-or-classifier-type:' + name, '[js] %s: expected %s / type %r, got class %r, classifier type %r (%s)' % (what, cls, kind, e.get('cls'), e.get('kind'), (e.get('msg') or '')[:100]),
+                              {'leg': 'js-io', 'request': rq, 'engine': 'js'})
+    finally:
+        node.close()
 
 
 def predict_warnings(text, in_policy, encoding, query_kind, out_policy, out_delim):
@@ -665,9 +710,9 @@ def run_shard(spec, res):
 
 def summarize(tier, seed, m):
     return {
-        'rule': 'fault enumeration: one (and two: the first must be named) poisoned record at every position k of tables of 1..6 records x 14 clause placements (SELECT, WHERE, ORDER BY key, GROUP BY key, aggregate argument, aggregate over a failing expression, UPDATE right-hand side, UPDATE target beyond the record, JOIN key on A, composite JOIN key on A (non-adjacent columns), JOIN key on B, missing field under .upper() in SELECT / WHERE, UNNEST list) with poison kinds non-numeric cell under int() / numeric aggregate, missing field, missing join key; %d statically detectable mistakes x 6 spelling / header variants (parsing error, zero records written), %d of them in JS syntax through the JS port; an invalid byte sequence at every offset of a UTF-8 file x 7 sequences x 3 chunk sizes, header / column-list inconsistencies, defective quoted_rfc quoting (IO-handling error); every subset of the anomalies {ragged, malformed quote, separator in simple output, BOM} (+ None from short records) on header-less full-scan queries with the exact iff and the cited record numbers. The same anomaly subsets also through the JS reader (bulk and streamed in two chunks), engine and writer. the poisoned record at every position of 2-6 record tables delivered by front-ends whose own numbering differs from the record number (CSV with header line, comment lines and multi-line cells through query_csv and the command line; a dataframe with a non-default index; a sqlite table with rowid gaps) under six query shapes: query-execution error naming record k; colorized simple / whitespace output (2-17 columns, delimiters that occur inside the colour escape sequences) with the separator warning iff a FIELD holds the delimiter; distinct_nontrivial counts enumerated scenarios.' % (len(PARSING_QUERIES), len(JS_PARSING_QUERIES)),
+        'rule': 'fault enumeration: one (and two: the first must be named) poisoned record at every position k of tables of 1..6 records x 14 clause placements (SELECT, WHERE, ORDER BY key, GROUP BY key, aggregate argument, aggregate over a failing expression, UPDATE right-hand side, UPDATE target beyond the record, JOIN key on A, composite JOIN key on A (non-adjacent columns), JOIN key on B, missing field under .upper() in SELECT / WHERE, UNNEST list) with poison kinds non-numeric cell under int() / numeric aggregate, missing field, missing join key; %d statically detectable mistakes x 6 spelling / header variants (parsing error, zero records written), %d of them in JS syntax through the JS port; an invalid byte sequence at every offset of a UTF-8 file x 7 sequences x 3 chunk sizes, header / column-list inconsistencies, defective quoted_rfc quoting (IO-handling error); the same bad bytes (bulk, one chunk, cut at the offset, byte by byte) and defective quoting through the JS port, by exception class and by the type its public classifier exception_to_error_info gives (also for a failing record and static mistakes over a CSV file); every subset of the anomalies {ragged, malformed quote, separator in simple output, BOM} (+ None from short records) on header-less full-scan queries with the exact iff and the cited record numbers. The same anomaly subsets also through the JS reader (bulk and streamed in two chunks), engine and writer. the poisoned record at every position of 2-6 record tables delivered by front-ends whose own numbering differs from the record number (CSV with header line, comment lines and multi-line cells through query_csv and the command line; a dataframe with a non-default index; a sqlite table with rowid gaps) under six query shapes: query-execution error naming record k; colorized simple / whitespace output (2-17 columns, delimiters that occur inside the colour escape sequences) with the separator warning iff a FIELD holds the delimiter; distinct_nontrivial counts enumerated scenarios.' % (len(PARSING_QUERIES), len(JS_PARSING_QUERIES)),
         'exhaustive': True,
-        'required': ['colorized_output_runs', 'frontend_poison_runs:query_csv', 'frontend_poison_runs:cli', 'frontend_poison_runs:pandas', 'frontend_poison_runs:sqlite', 'header_separator_runs', 'poison_runs', 'parsing_runs', 'js_parsing_runs', 'js_warning_runs', 'bad_byte_runs', 'inconsistent_input_runs', 'warning_runs', 'list_warning_runs', 'field_name_checks', 'no_write_before_parsing_error_checks', 'js_cases',
+        'required': ['colorized_output_runs', 'frontend_poison_runs:query_csv', 'frontend_poison_runs:cli', 'frontend_poison_runs:pandas', 'frontend_poison_runs:sqlite', 'header_separator_runs', 'poison_runs', 'parsing_runs', 'js_parsing_runs', 'js_warning_runs', 'js_io_runs', 'bad_byte_runs', 'inconsistent_input_runs', 'warning_runs', 'list_warning_runs', 'field_name_checks', 'no_write_before_parsing_error_checks', 'js_cases',
                      'warning_iff:bom:present', 'warning_iff:fields:present', 'warning_iff:none:present', 'warning_iff:quote:present', 'warning_iff:sep:present'] + ['poison:' + c for c in CLAUSES],
         'assumptions': ['poison scenarios carry no TOP/LIMIT bound (see C02: the record behind the bound may or may not be evaluated)', 'error texts are never compared: class + record number (tolerant pattern) + field name'],
     }
